@@ -745,6 +745,15 @@ func isKVStoreType(t types.Type) bool {
 // accessesOf lists the direct KV accesses in one function.
 func (r *Resolver) accessesOf(f *ssa.Function) []Access {
 	var out []Access
+	{
+		root := f
+		for root.Parent() != nil {
+			root = root.Parent()
+		}
+		if root.Pkg == nil {
+			return nil // synthetic: no direct store access
+		}
+	}
 	for _, b := range f.Blocks {
 		for _, in := range b.Instrs {
 			ci, ok := in.(ssa.CallInstruction)
@@ -996,17 +1005,22 @@ func computeEffects(w *World) *Effects {
 		CBParams: map[*ssa.Function]map[int]bool{}}
 	var fns []*ssa.Function
 	for f := range w.AllFuncs {
-		if f.Pkg == nil && f.Parent() == nil {
+		if len(f.Blocks) == 0 {
 			continue
 		}
 		root := f
 		for root.Parent() != nil {
 			root = root.Parent()
 		}
-		if root.Pkg == nil || !strings.HasPrefix(root.Pkg.Pkg.Path(), modPath) {
+		if root.Pkg == nil {
+			// synthetic wrappers / thunks / bound methods / instantiations: they only
+			// forward to a declared method, but call-graph edges run through them
+			// (interface calls resolve to the pointer-receiver wrapper), so they
+			// must carry summaries too.
+			fns = append(fns, f)
 			continue
 		}
-		if len(f.Blocks) == 0 {
+		if !strings.HasPrefix(root.Pkg.Pkg.Path(), modPath) {
 			continue
 		}
 		fns = append(fns, f)
@@ -1186,4 +1200,127 @@ func (e *Effects) List(f *ssa.Function, kinds string) []string {
 	}
 	sort.Strings(out)
 	return out
+}
+
+// keyCtor describes how the key of a point access was built: the repo function
+// that returned it ("types.OptOutsToFinishKey"), or an inline shape.
+func (r *Resolver) keyCtor(key ssa.Value, depth int) string {
+	if key == nil || depth > 6 {
+		return "?"
+	}
+	switch x := key.(type) {
+	case *ssa.Extract:
+		return r.keyCtor(x.Tuple, depth+1)
+	case *ssa.Call:
+		com := x.Common()
+		if b, ok := com.Value.(*ssa.Builtin); ok && b.Name() == "append" {
+			return "inline:append(" + r.keyCtor(com.Args[0], depth+1) + ",…)"
+		}
+		if com.IsInvoke() {
+			if com.Method.Name() == "Key" {
+				return "iterator.Key"
+			}
+			if com.Method.Name() == "Bytes" {
+				return "inline:Bytes(" + types.TypeString(com.Value.Type(), func(p *types.Package) string { return p.Name() }) + ")"
+			}
+			return "invoke:" + com.Method.Name()
+		}
+		if sc := com.StaticCallee(); sc != nil {
+			if sc.Pkg != nil && strings.HasPrefix(sc.Pkg.Pkg.Path(), modPath) {
+				return sc.Pkg.Pkg.Name() + "." + sc.Name()
+			}
+			// a conversion helper of a dependency around an inner value
+			inner := ""
+			if len(com.Args) > 0 {
+				inner = r.keyCtor(com.Args[0], depth+1)
+			}
+			if sc.Signature.Recv() != nil {
+				return "inline:" + sc.Name() + "(" + inner + ")"
+			}
+			return "inline:" + sc.Name() + "(" + inner + ")"
+		}
+		return "dynamic"
+	case *ssa.Convert:
+		return "inline:conv(" + r.keyCtor(x.X, depth+1) + ")"
+	case *ssa.ChangeType:
+		return r.keyCtor(x.X, depth+1)
+	case *ssa.Slice:
+		if _, ok := x.X.(*ssa.Alloc); ok {
+			return "inline:literal"
+		}
+		return r.keyCtor(x.X, depth+1)
+	case *ssa.Phi:
+		set := map[string]bool{}
+		for _, e := range x.Edges {
+			set[r.keyCtor(e, depth+1)] = true
+		}
+		var ks []string
+		for k := range set {
+			ks = append(ks, k)
+		}
+		sort.Strings(ks)
+		return strings.Join(ks, "|")
+	case *ssa.Parameter:
+		return "param:" + x.Name()
+	case *ssa.UnOp:
+		if g, ok := x.X.(*ssa.Global); ok {
+			return "global:" + g.Name()
+		}
+		if a, ok := x.X.(*ssa.Alloc); ok {
+			set := map[string]bool{}
+			for _, ref := range *a.Referrers() {
+				if st, ok := ref.(*ssa.Store); ok && st.Addr == a {
+					set[r.keyCtor(st.Val, depth+1)] = true
+				}
+			}
+			var ks []string
+			for k := range set {
+				ks = append(ks, k)
+			}
+			sort.Strings(ks)
+			return strings.Join(ks, "|")
+		}
+		if fa, ok := x.X.(*ssa.FieldAddr); ok {
+			return "field:" + fa.X.Type().Underlying().(*types.Pointer).Elem().Underlying().(*types.Struct).Field(fa.Field).Name()
+		}
+		return "load"
+	case *ssa.Const:
+		return "const"
+	case *ssa.FreeVar:
+		if b := r.freeVarBinding(x); b != nil {
+			return r.keyCtor(b, depth+1)
+		}
+	case *ssa.Alloc:
+		return "local:" + x.Comment
+	case *ssa.MakeSlice:
+		return "inline:make"
+	case *ssa.Field:
+		return "field"
+	}
+	return fmt.Sprintf("%T", key)
+}
+
+// accessKey returns the key operand of a KV point access instruction.
+func accessKey(in ssa.Instruction) ssa.Value {
+	ci, ok := in.(ssa.CallInstruction)
+	if !ok {
+		return nil
+	}
+	com := ci.Common()
+	if com.IsInvoke() {
+		if len(com.Args) > 0 {
+			return com.Args[0]
+		}
+		return nil
+	}
+	if sc := com.StaticCallee(); sc != nil && sc.Signature.Recv() != nil {
+		if len(com.Args) > 1 {
+			return com.Args[1]
+		}
+		return nil
+	}
+	if len(com.Args) > 1 {
+		return com.Args[1]
+	}
+	return nil
 }
